@@ -36,6 +36,9 @@ NAMED = {
     'NA': ('arr', NUM),
     'NO': obj({'a': (STR, False)}),
     'NL': ('arr', ('ref', 'NL')),
+    'SA': ('arr', STR),
+    'SS': ('tup', [STR, STR], None),
+    'SR': ('tup', [STR], STR),
 }
 
 
@@ -180,6 +183,18 @@ def systematic_pairs():
         for x in xs:
             out.append((('or', [x, e]), x))
             out.append((x, ('or', [x, e])))
+    # (3) intersections of two list types (array / closed tuple / open tuple, inline and named, in both orders): the positive atoms of one
+    #     conjunction are combined by list_formula_is_empty, which pads the shorter prefix with the rest of the list it belongs to
+    lists = [('arr', STR), ('arr', NUM), ('tup', [STR], None), ('tup', [STR, STR], None), ('tup', [STR, NUM], None), ('tup', [STR], STR), ('tup', [STR], NUM),
+             ('tup', [STR, STR], STR), ('tup', [NUM], STR), ('ref', 'SA'), ('ref', 'SS'), ('ref', 'SR'), ('ref', 'NA'), ('ref', 'P2'), ('ref', 'PR')]
+    for a in lists:
+        for b in lists:
+            if a is b:
+                continue
+            i = ('and', [a, b])
+            out.append((i, ('never',)))
+            out.append((a, i))
+            out.append((i, ('tup', [STR, STR], None)))
     return out
 
 
